@@ -168,7 +168,7 @@ func TestC31(t *testing.T) {
 		srcs = append(srcs, src{p.Name, p.ID})
 	}
 	srcs = append(srcs, src{"Golang", tls.HelloGolang})
-	nrand := mon.Pick(1500, 20000)
+	nrand := mon.Pick(1500, 100000)
 	for i := 0; i < nrand; i++ {
 		rg := Sub("C31rand", i)
 		var seed tls.PRNGSeed
@@ -336,7 +336,7 @@ func TestC31(t *testing.T) {
 	r.Floor("hellos_roundtripped", 100)
 
 	// (b) conversions
-	n := mon.Pick(10000, 2000000)
+	n := mon.Pick(10000, 8000000)
 	x25519, _ := ecdh.X25519().GenerateKey(crand.Reader)
 	p256, _ := ecdh.P256().GenerateKey(crand.Reader)
 	mlk, _ := mlkem.GenerateKey768()
